@@ -4,6 +4,7 @@ import (
 	"bufio"
 	"fmt"
 	"io"
+	"os"
 	"os/exec"
 	"strconv"
 	"strings"
@@ -65,6 +66,11 @@ func NewSolver(kind string, timeoutMs int) (*Solver, error) {
 		return nil, err
 	}
 	s := &Solver{Kind: kind, cmd: cmd, in: in, out: bufio.NewReaderSize(out, 1<<16), timeout: timeoutMs}
+	if p := os.Getenv("VERIF_SMTLOG"); p != "" {
+		if f, err := os.OpenFile(fmt.Sprintf("%s.%d", p, cmd.Process.Pid), os.O_CREATE|os.O_WRONLY|os.O_TRUNC, 0o644); err == nil {
+			s.Log = f
+		}
+	}
 	s.write("(set-option :global-declarations true)\n")
 	if strings.HasPrefix(kind, "cvc5") {
 		s.write("(set-logic ALL)\n")
